@@ -963,3 +963,99 @@ ID_SCOPE = {
 def ids_for_property(F, pid, rule_id):
 	res, floor = ID_SCOPE[pid]
 	return id_rule(F, rule_id, res, floor)
+
+# ----------------------------------------------------------------------------- flag / option resets (typestate writes)
+# State that survives a function call lives in fields; the protocol state machines are driven by small writes of a constant to such a
+# field: `self.context.signer_pending_funding = false`, `peer.awaiting_pong_timer_tick_intervals = 0`, `self.holding_cell_update_fee =
+# None`, `funding.funding_tx_confirmation_height = 0`.  A reset that disappears (not cleared on reconnect, on reorg, on restart, after the
+# message was sent) leaves the machine in a state the other paths never expect.  The table (rules/provenance_flags.json) holds the
+# (file, function, Type.field, constant) quadruples of the reviewed tree; a reviewed quadruple must not disappear while the function
+# exists.  New writes and new functions are not judged; moving a write inside its function is not judged either.
+_FLC = {}
+_FL_TABLE = None
+
+def fl_table():
+	global _FL_TABLE
+	if _FL_TABLE is None:
+		_FL_TABLE = json.load(open(os.path.join(os.path.dirname(os.path.abspath(__file__)), 'provenance_flags.json')))
+	return _FL_TABLE
+
+def fl_census(F):
+	if F.dir in _FLC:
+		return _FLC[F.dir]
+	cnt = collections.Counter()
+	where = {}
+	for n, r in F.fns.items():
+		if not n.startswith(('lightning', '<lightning')) or 'ser_macros' in r['file'] or F.impl_kind.get(root_fn(n)) == 'derived':
+			continue
+		tail = root_fn(n).rsplit('::', 1)[-1]
+		if tail in ('new', 'read', 'default', 'from', 'clone') or tail.startswith(('new_', 'read_', 'from_', 'with_')):
+			continue
+		try:
+			fu = F.func(n)
+		except AnchorMissing:
+			continue
+		fl = r['file'].split('/')[0] + ':' + (r['file'].split('src/')[-1] if 'src/' in r['file'] else r['file'])
+		for bi, si, s in fu.stmts():
+			pl, rv = s[1], s[2]
+			if len(pl) < 2 or not isinstance(pl[-1], str) or not pl[-1].startswith('.') or '#' not in pl[-1]:
+				continue
+			# the base must be reached through a reference (state that outlives the call), not a local aggregate being built
+			if '*' not in pl[1:]:
+				continue
+			val = None
+			if rv[0] == 'use' and rv[1][0] == 'k' and isinstance(rv[1][1], dict):
+				c = rv[1][1]
+				if c.get('ty') == 'bool':
+					val = 'true' if c.get('v') else 'false'
+				elif c.get('v') is not None and (c.get('ty') or '')[:1] in ('u', 'i') and c.get('v') in (0,):
+					val = '0'
+			elif rv[0] == 'agg' and rv[1] == 'adt' and norm(rv[2] or '') == 'core::option::Option' and rv[3] == 'None':
+				val = 'None'
+			if val is None:
+				continue
+			fname, _, owner = pl[-1][1:].partition('#')
+			owner = norm(owner).rsplit('::', 1)[-1]
+			if owner in ('Some', 'Ok', 'Err') or fname.isdigit():
+				continue
+			k = (fl, tail, owner + '.' + fname, val)
+			cnt[k] += 1
+			where.setdefault(k, (n, s[0]))
+	_FLC[F.dir] = (cnt, where)
+	return _FLC[F.dir]
+
+def fl_rule(F, rule_id, file_res, floor=1):
+	import re
+	cnt, where = fl_census(F)
+	_, _, known = sc_census(F)
+	tab = fl_table()
+	out = []
+	n = 0
+	for fl, tail, fld, val in sorted(tuple(x) for x in tab['writes']):
+		if not any(re.search(p, fl.replace(':', '/src/')) for p in file_res):
+			continue
+		if tail not in known.get(fl, ()):
+			continue
+		n += 1
+		if cnt.get((fl, tail, fld, val), 0) == 0:
+			fns = [x for x in F.fns if root_fn(x).rsplit('::', 1)[-1] == tail and F.fns[x]['file'].endswith(fl.split(':', 1)[1])]
+			out.append(Result(rule_id, False, 'reset-lost:%s:%s=%s' % (tail, fld, val), '%s no longer sets %s = %s (reviewed: it did): the flag / counter / pending slot keeps its old value on this path, a state the rest of the machine does not expect there' % (tail, fld, val), 1, where=F.where(fns[0]) if fns else fl))
+	if n < floor:
+		return [Result(rule_id, False, 'anchor:flag-writes', 'only %d reviewed constant state writes left in %s (expected >= %d)' % (n, file_res, floor))]
+	if not out:
+		out.append(Result(rule_id, True, 'ok:flag-writes', '%d reviewed constant writes to persistent state (flag = true / false, counter = 0, slot = None) in %s are all still made' % (n, '|'.join(file_res)), n))
+	return out
+
+FL_SCOPE = {
+	'C01': ([r'ln/channel\.rs$', r'ln/interactivetxs\.rs$'], 36),
+	'C05': ([r'ln/channel\.rs$'], 36),
+	'C09': ([r'ln/channel\.rs$', r'ln/channelmanager\.rs$', r'chain/chainmonitor\.rs$'], 38),
+	'C07': ([r'chain/channelmonitor\.rs$', r'util/sweep\.rs$'], 13),
+	'C11': ([r'chain/channelmonitor\.rs$', r'ln/channel\.rs$'], 40),
+	'C15': ([r'ln/peer_handler\.rs$'], 12),
+	'C16': ([r'routing/router\.rs$'], 6),
+}
+
+def flags_for_property(F, pid, rule_id):
+	res, floor = FL_SCOPE[pid]
+	return fl_rule(F, rule_id, res, floor)
